@@ -130,6 +130,23 @@ class AioRunner:
         timing = ts if o.get("is_list") else (ts[0] if ts else [])
         cell = {"runs": runs, "nrun": 0}
         cb = self.make_coro(cell)
+        if o.get("plain_handle"):
+            # a plain (non-async) callable handed to the asyncio scheduler: it is called, `await None` then fails inside _exec -
+            # a failing run like any other (contained, counted, logged); the scenario scripts every run of it as raising at once
+            runner = self
+
+            def plain(*args, **kwargs):
+                job, key = cell["job"], cell["key"]
+                cell["nrun"] += 1
+                due = inst_of(job.datetime)
+                runner.events.append((CLOCK.instant, key, "S", due))
+                runner.trace.append(("S", key))
+                asyncio.get_running_loop().call_soon(runner.probe, key)
+                runner.events.append((CLOCK.instant, key, "X", due))
+                return None
+
+            plain.__qualname__ = "cb"
+            cb = plain
         kw = {}
         tags = py_tags(o.get("tags"), o.get("tagkind"))
         cell["orig_tags"] = tags
@@ -293,6 +310,7 @@ class AioRunner:
             obs["events"] = list(self.events)
             obs["jobs"] = self.snapshot()
             obs["logs"] = sum(1 for r in self.handler.records if r.levelno >= logging.ERROR)
+            obs["handler_saw"] = list(self.handler.seen_counters)
             obs["now"] = CLOCK.instant
             obs["task_errors"] = self.task_errors()
             obs["trace"] = list(self.trace)
